@@ -1,6 +1,7 @@
 import Mdsort.Proofs.Inspect
 import Mdsort.Proofs.InspectTrue
 import Mdsort.Proofs.WorldDryF21
+import Mdsort.Proofs.WorldDryTotal
 
 /-!
 # C06 - dry run predicts the real run and its explanations are true
@@ -222,6 +223,63 @@ example : (runPlan Plan.none (mainP { Proofs.exEnv with dryrun := true } Proofs.
   (C06_dry_predicts_real_partial Proofs.exEnv Proofs.wholeExOrc true Proofs.exit0_exConf Proofs.wholeExFiles []
     Proofs.dry_f21World2 rfl rfl rfl (by decide) Proofs.exit0_ex_nd Proofs.dry_f21_reg2 Proofs.dry_ex_good Proofs.dry_ex_runs.1
     Proofs.dry_ex_runs.2.1).1
+
+/-- **If the real run exits 0, so does the dry run.**  Same configuration, registry, oracles and initial
+world, the fault-free plan, maildir mode, rules without discard that ask the operating system nothing (`Proofs.asksFree`, as
+for `C06_dry_predicts_real_partial`: a `command` condition is run once by each of the two runs and need not answer the same
+twice), no message visited twice (`exit0_Good`): exit status 0 of the real run implies exit status 0 of the `-d` run.
+
+Why: without faults the dry run performs a SUBSET of the fallible steps of the real run.  Common to both: the
+configuration is valid; every selected path, path + `/new`, path + `/cur` fits (`Proofs.dryT_real_mainP`: a run
+without the error flag had all of that, for any single-fault plan); `opendir` of `new` and `cur`
+(`Proofs.dryT_real_dirs`: a real run without the error flag opened every configured directory, and no call of a
+maildir-mode run creates or removes a directory - `Proofs.dirsSame_mainP`, from the frame condition of
+`C04_isolation_calls_main` - so they exist in the initial world, which is the world the dry run sees throughout);
+`readdir`; for every message met: the registry knows it, `message_parse` succeeds (`Proofs.dryT_parse`: without
+faults it succeeds iff path, name and flag suffix are acceptable), evaluation and interpolation give no error
+verdict (`Proofs.dryT_verdict_isErr`: the verdict's error bit does not depend on `-d`; `C01_main_exit0_partial`:
+after a real run with exit status 0 no registered message has an error verdict).  Only in a real run: every
+call of the action lists (`matchesExec`) - and, without `exit0_Good`, the second visit of a message moved into a
+directory walked later (F21).  Only in a dry run: nothing (`Proofs.dryT_mainP`: under the conditions above the
+fault-free dry run ends without the error flag). -/
+theorem C06_dry_exit_le_real (env : PEnv) (orc : EvalOracles) (confOk : Bool) (conf : List ConfBlock) (files : Files)
+    (input : Bytes) (w : World) (hm : env.stdinMode = false) (hsyn : env.syntaxOnly = false) (hdry : env.dryrun = false)
+    (hfree : ∀ b ∈ conf, Proofs.asksFree b.expr = true)
+    (hnd : ∀ b ∈ conf, Proofs.WholeNoDiscard env orc b.expr) (hreg : Proofs.WholeReg w files)
+    (hgood : Proofs.exit0_Good ⟨env, orc, Proofs.exit0_dirsOf conf, files, w⟩)
+    (hreal : (runPlan Plan.none (mainP env orc confOk conf files input) w 0 []).1.1 = 0) :
+    (runPlan Plan.none (mainP { env with dryrun := true } orc confOk conf files input) w 0 []).1.1 = 0 :=
+  Proofs.dry_exit_le_real env orc confOk conf files input w hm hsyn hdry hfree hnd hreg hgood hreal
+
+/-- **The dry run predicts the real run**, without assuming anything about the dry run:
+`C06_dry_predicts_real_partial` minus its hypothesis on the exit status of the dry run.  Exit status 0 of the
+REAL run alone gives exit status 0 of the dry run, equality of the two logs, and both are the reference log. -/
+theorem C06_dry_predicts_real_partial2 (env : PEnv) (orc : EvalOracles) (confOk : Bool) (conf : List ConfBlock) (files : Files)
+    (input : Bytes) (w : World) (hm : env.stdinMode = false) (hsyn : env.syntaxOnly = false) (hdry : env.dryrun = false)
+    (hfree : ∀ b ∈ conf, Proofs.asksFree b.expr = true)
+    (hnd : ∀ b ∈ conf, Proofs.WholeNoDiscard env orc b.expr) (hreg : Proofs.WholeReg w files)
+    (hgood : Proofs.exit0_Good ⟨env, orc, Proofs.exit0_dirsOf conf, files, w⟩)
+    (hreal : (runPlan Plan.none (mainP env orc confOk conf files input) w 0 []).1.1 = 0) :
+    (runPlan Plan.none (mainP { env with dryrun := true } orc confOk conf files input) w 0 []).1.1 = 0 ∧
+    (runPlan Plan.none (mainP { env with dryrun := true } orc confOk conf files input) w 0 []).1.2.log =
+      (runPlan Plan.none (mainP env orc confOk conf files input) w 0 []).1.2.log ∧
+    (runPlan Plan.none (mainP env orc confOk conf files input) w 0 []).1.2.log =
+      Proofs.exit0_refDirs ⟨env, orc, Proofs.exit0_dirsOf conf, files, w⟩ (Proofs.exit0_dirsOf conf) :=
+  Proofs.dry_predicts_real2 env orc confOk conf files input w hm hsyn hdry hfree hnd hreg hgood hreal
+
+/-- Non-vacuity: the two-message example (`maildir "/m" { match all move "/y" }`, `/y` present): every
+hypothesis holds - the exit status of the real run is evaluated, the one of the dry run is NOT used -, so the
+dry run exits 0 and logs what the real run logs. -/
+theorem C06_dry_exit_le_real_nonvacuous :
+    (runPlan Plan.none (mainP { Proofs.exEnv with dryrun := true } Proofs.wholeExOrc true Proofs.exit0_exConf
+      Proofs.wholeExFiles []) Proofs.dry_f21World2 0 []).1.1 = 0 ∧
+    (runPlan Plan.none (mainP { Proofs.exEnv with dryrun := true } Proofs.wholeExOrc true Proofs.exit0_exConf
+      Proofs.wholeExFiles []) Proofs.dry_f21World2 0 []).1.2.log =
+    (runPlan Plan.none (mainP Proofs.exEnv Proofs.wholeExOrc true Proofs.exit0_exConf Proofs.wholeExFiles [])
+      Proofs.dry_f21World2 0 []).1.2.log := by
+  have h := C06_dry_predicts_real_partial2 Proofs.exEnv Proofs.wholeExOrc true Proofs.exit0_exConf Proofs.wholeExFiles []
+    Proofs.dry_f21World2 rfl rfl rfl (by decide) Proofs.exit0_ex_nd Proofs.dry_f21_reg2 Proofs.dry_ex_good Proofs.dry_ex_runs.1
+  exact ⟨h.1, h.2.1⟩
 
 /-- Per file: the lines do not depend on `-d` (any environment, oracle, rules, directory, name, content). -/
 theorem C06_lines_same (env : PEnv) (orc : EvalOracles) (expr : Expr) (D n c : Bytes) (b1 b2 : Bool) :
